@@ -23,6 +23,8 @@ def _alias(e, env):
             return '_columns'
     if isinstance(e, ast.Name):
         return env.get(e.id, (None, None))[0]
+    if isinstance(e, ast.IfExp):      # `a if c else b` may be either: an alias if one of the two is
+        return _alias(e.body, env) or _alias(e.orelse, env)
     return None
 
 
